@@ -64,14 +64,18 @@ ALL_OPS = ("set_many_dup", "get_many_dup", "delete_many_dup", "set", "add", "rep
 def shards(tier):
     S = []
     if tier == "thorough":
-        stacks = ("client", "pooled1", "pooled2", "hash1", "hash2", "hash1p")
-        for st in stacks:
+        # every operation on Client and on HashClient(2 servers); the multi-command and dup-key operations on the pooled
+        # stacks as well (the full 6-stack x 27-operation grid needs ~16 CPU-hours and was cut down)
+        multi = ("set_many", "set_many_dup", "get_many", "get_many_dup", "delete_many", "delete_many_dup", "cas", "quit")
+        for st in ("client", "hash2", "pooled1", "pooled2", "hash1", "hash1p"):
             for op in ALL_OPS:
                 if st.startswith("hash") and op in ops.NOT_ON_HASH:
                     continue
-                S.append(dict(fn="h_calls", timeout=1500, shard=dict(
+                if st not in ("client", "hash2") and op not in multi:
+                    continue
+                S.append(dict(fn="h_calls", timeout=900, shard=dict(
                     stack=st, op1=op, follow=("get", "gets", "set", "delete_many", "incr", "get_many"),
-                    cuts=(0, 1, 2, 7, 9), depth=2)))
+                    cuts=(0, 1, 7) if st != "client" else (0, 1, 2, 7, 9), depth=2)))
         for st in ("client", "pooled1", "hash1"):
             for op in ("get", "gets", "get_many", "gets_many", "gat", "gats", "stats"):
                 S.append(dict(fn="h_calls", timeout=1500, shard=dict(stack=st, op1=op, follow=("get", "set", "get_many"),
@@ -106,7 +110,8 @@ BOUNDS = {
              "{default, True, False}; one fault, symbolic position over every connect/sendall/recv of the history and "
              "symbolic kind over {timeout, reset, EOF, OSError, ERROR, CLIENT_ERROR, SERVER_ERROR, unparseable line, "
              "truncated reply + EOF}; one cut of the reply stream at offset 7 or none (symbolic)",
-    "thorough": "all 22 operations x 6 client stacks, follow-up among 6 operations, cuts {none,1,2,7,9}; 3-call histories, "
+    "thorough": "all operations on Client (cuts {none,1,2,7,9}) and HashClient(2 servers), the multi-command / dup-key / cas / quit "
+                "operations on 4 further stacks, follow-up among 6 operations; 3-call histories, "
                 "receive size 4 and default_noreply=False for the multi-command operations on Client",
 }
 OUTSIDE = ("two faults in one history; histories longer than 3 calls; raw_command (C03), quit/shutdown; values other than "
